@@ -679,6 +679,26 @@ theorem tls_wrap_facts_hold :
     Gen.transportTlsWrapsBeforeProtocolConn = true ∧ Gen.dialerHandshakesInDialContext = true ∧
     Gen.dialerConnUsesDialContextResult = true ∧ Gen.dialerFailedHandshakeCloses = true := by decide
 
+/-! ## error codes are signed: every non-zero code is a refusal
+
+Kafka error codes are int16 and −1 (UNKNOWN_SERVER_ERROR) is a real one — a broker whose credential back-end throws
+answers a SaslAuthenticate step with it.  Seed C18-m10 tested `res.ErrorCode > 0` in `saslAuthenticateRoundTrip`: the −1
+was taken for acceptance and, with a single-step mechanism, the connection was handed out.  The model's `reply err` has
+`err : Int` and refuses on `err ≠ 0`; what was missing was the statement and answer scripts with negative codes. -/
+
+theorem any_nonzero_code_is_a_refusal (c : Cfg) (err : Int) (h : err ≠ 0) (d : Bytes) (hs au : Option (Int × Int))
+    (v av : Nat) (hv : v ≠ 0) :
+    react c .awaitVersions (.versions err hs au) = some (failWith (.kafka err)) ∧
+    react c (.awaitHandshake v av) (.reply err d false) = some (failWith (.kafka err)) ∧
+    react c (.awaitAuth v av) (.reply err d false) = some (failWith (.kafka err)) := by
+  refine ⟨?_, ?_, ?_⟩ <;> simp [react, h, hv]
+
+/-- −1 at the token step of a framed PLAIN exchange: the dial fails, closed, and the connection is never handed out -/
+theorem unknown_server_error_refuses :
+    (run { path := .transport, sasl := true }
+        [.versions 0 (some (0, 1)) (some (0, 1)), .reply 0 [] false, .mechStart (some [0, 97, 0, 98]), .reply (-1) [] false]).map
+      (fun s => (s.phase, s.closed, s.result)) = some (.failed, true, some (.kafka (-1))) := by decide
+
 /-! ## the control flow of the two `authenticateSASL` functions, re-extracted by symbolic execution
 
 `go/extract/saslplain/authflow.go` runs both functions symbolically over scenarios of call outcomes (handshake,
